@@ -22,6 +22,12 @@ fn main() {
                 }
             }
         }
+        Some("atomic-diff") => {
+            let _orig = vx::common::mute_stderr();
+            let i: usize = args[2].parse().unwrap();
+            let full = args[3] == "full";
+            println!("{}", vx::atomic_diff::run_type(i, full));
+        }
         Some("worker") => {
             // worker <family> <set> <mode-json> <shard> <nshards> <from> <only|-> <deadline>
             let fam = checks::family(&args[2]);
